@@ -15,7 +15,7 @@ import (
 // blanks, chains and cycles. The oracle unfolds the aliases on the token list
 // (POSIX rules, written below) and parses the result without aliases.
 
-var aliasValuesA = []string{"z", "z w", "z ", "b", "b ", "a", "a x", "z ; b", "z | b", "v=1 z", "z >f", "! z", "{ z ; }", "if z ; then w ; fi"}
+var aliasValuesA = []string{"z", "z w", "z ", "b", "b ", "a", "a x", "z ; b", "z | b", "v=1 z", "z >f", "! z", "{ z ; }", "if z ; then w ; fi", "{ z ; } ", "if z ; then w ; fi "}
 var aliasValuesB = []string{"t", "t ", "a", "a ", "b", "t u", "t c", "c c"}
 var aliasValuesC = []string{"k", "k j "}
 
@@ -219,6 +219,39 @@ func c17Fold(maxCmds int) {
 	got, err1 := parseAllEnv(env, s1)
 	s2 := NewScanner([]rune(unfolded + "\n"))
 	want, err2 := parseAllEnv(nil, s2)
+	if err2 != nil {
+		nd.Cover("unfolded-ill-formed")
+		nd.Assert(err1 != nil, "a program whose unfolding is ill-formed is rejected")
+		return
+	}
+	nd.Cover("unfolded-well-formed")
+	nd.Assert(err1 == nil, "a program whose unfolding is well-formed is accepted")
+	if err1 != nil {
+		return
+	}
+	nd.Assert(SkelEq(got) == SkelEq(want), "parsing with aliases equals parsing the unfolded text")
+}
+
+// C17_Closer: an alias whose value is a whole compound command and ends in a
+// blank makes the following word examined too; that word may be an alias for
+// the redirections of the compound command. Textual replacement is written out
+// by hand (no other alias is involved).
+func C17_Closer() {
+	va := []string{"{ z ; } ", "if z ; then w ; fi ", "( z ) ", "while z ; do w ; done ", "case z in w) ;; esac ", "{ z ; }"}[nd.Choice(6)]
+	vb := []string{">f", ">f 2>&1", "<g >f", "2>>f"}[nd.Choice(4)]
+	pre := []string{"", "x ; ", "x | ", "! "}[nd.Choice(4)]
+	post := []string{"", " ; y", " | y", " && y"}[nd.Choice(4)]
+	folded := pre + "a b" + post
+	unfolded := pre + va + "b" + post
+	if va[len(va)-1] == ' ' {
+		unfolded = pre + va + vb + post
+	}
+	nd.Observe("a='" + va + "' b='" + vb + "' :: " + folded + " => " + unfolded)
+	env := interp.NewExecEnv("sh")
+	env.Aliases["a"] = va
+	env.Aliases["b"] = vb
+	got, err1 := parseAllEnv(env, NewScanner([]rune(folded+"\n")))
+	want, err2 := parseAllEnv(nil, NewScanner([]rune(unfolded+"\n")))
 	if err2 != nil {
 		nd.Cover("unfolded-ill-formed")
 		nd.Assert(err1 != nil, "a program whose unfolding is ill-formed is rejected")
